@@ -870,3 +870,67 @@ def s_empty_unit(cb):
                 ghost=GHOST + ['uint8_t g_lm, g_ls;   /* method and state named by the last method record */'],
                 calls=S_CALLS, contracts=dict(LOG_M, **{'@target': s_empty_contract(cb)}))
 UNITS += [s_empty_unit(cb) for cb in ('entryGuard', 'enter', 'preUpdate', 'update', 'postUpdate', 'preReact', 'react', 'postReact', 'query', 'exit', 'planSucceeded', 'planFailed')]
+
+# =============================================================================================
+# RV_ (activation policy) and RP_ (payload requests)
+RV_RECS = dict(R_RECS); RV_RECS.update({'RV_': r'^ffsm2::detail::RV_<', 'RP_': r'^ffsm2::detail::RP_<', 'InstanceT': r'^ffsm2::detail::InstanceT<'})
+def at(path, c):
+    """restate an R_ contract for a derived object that holds the R_ as base sub-object `path`"""
+    def r(x):
+        return x.replace('self->_core', path + '._core').replace('__CPROVER_object_whole(self)', '__CPROVER_object_whole(self)')
+    out = dict(c)
+    for k in ('requires', 'assigns', 'requires_target', 'assigns_callee'):
+        if c.get(k) is not None:
+            out[k] = [r(x) for x in c[k]]
+    for k in ('ensures', 'ensures_callee'):
+        if c.get(k) is not None:
+            out[k] = [(e[0], r(e[1])) if isinstance(e, tuple) else r(e) for e in c[k]]
+    return out
+def rv_unit(name, fn, contract, callee_contracts, props, nparams, cls, calls=None, **kw):
+    u = r_unit(name, fn, contract, callee_contracts, props, nparams, calls=calls, cls=cls, **kw)
+    u['id'] = 'root.RV_.' + name + kw.get('id_suffix', '')
+    u['recs'] = RV_RECS
+    u.pop('id_suffix', None)
+    return u
+RP_CHANGEWITH = dict(
+    requires_target=[fresh('self'), '{fresh:payload}', '(self->_b0._b0._core.logger == (void*)0 || __CPROVER_is_fresh(self->_b0._b0._core.logger, sizeof(*self->_b0._b0._core.logger)))'],
+    requires=['g_clock < ' + BOUND['R'], 'g_j < sizeof(*payload)'],
+    assigns=['self->_b0._b0._core.request'] + REC_ASSIGNS, assigns_callee=['g_lastreq'],
+    ensures=[('C02,C07', 'self->_b0._b0._core.request._b0.destination == stateId_ && self->_b0._b0._core.request._b0.origin == 255 && self->_b0._b0._core.request._b0.method == Method__NONE && self->_b0._b0._core.request.payloadSet'),
+             ('C07', 'self->_b0._b0._core.request.storage[g_j] == ((const uint8_t*)payload)[g_j]')] + logged(1, '255', 'stateId_', 'self->_b0._b0._core.logger'),
+    ensures_callee=[t_eq('g_lastreq', 'self->_b0._b0._core.request')])
+UNITS += [
+    # manual activation: enter() / exit() are initialEnter() / finalExit(); isActive() reports the protocol state
+    rv_unit('enter', 'RV___enter', at('self->_b0', dict(R_IE, loops={})), {'R___initialEnter': R_IE}, ['C01', 'C04', 'C11', 'C18'], 0, r'^ffsm2::detail::RV_<',
+            calls={'R___initialEnter': 'contract'}, witness_defines=['W_MANUAL']),
+    rv_unit('exit', 'RV___exit', at('self->_b0', R_FE), {'R___finalExit': R_FE}, ['C01', 'C18'], 0, r'^ffsm2::detail::RV_<',
+            calls={'R___finalExit': 'contract'}, witness_defines=['W_MANUAL']),
+    rv_unit('isActive', '@target', dict(requires_target=[fresh('self')], requires=[], assigns=[], ensures=[('C01', '__CPROVER_return_value == (self->_b0._core.registry.active != 255)')]),
+            {}, ['C01', 'C06', 'C18'], 0, r'^ffsm2::detail::RV_<', witness_defines=['W_MANUAL']),
+    # automatic activation: construction activates, destruction deactivates (so no enter() is left unpaired)
+    rv_unit('dtor', 'RV___dtor', at('self->_b0', R_FE), {'R___finalExit': R_FE}, ['C01', 'C18'], 0, r'^ffsm2::detail::RV_<', calls={'R___finalExit': 'contract'},
+            target=dict(cls=r'^ffsm2::detail::RV_<', kind='dtor', name='~RV_', nparams=0), id_suffix='.automatic'),
+    rv_unit('changeWith', 'RP___changeWith__2', RP_CHANGEWITH, dict(LOGREC), ['C02', 'C07', 'C16', 'C18'], 2, r'^ffsm2::detail::RP_<',
+            calls={'re:^LoggerInterfaceT__': 'contract'}, ghost=GHOST + ['uint8_t g_j;']),
+]
+
+RVC_ = 'self->_b0._core'
+R_IE_RV = at('self->_b0', dict(R_IE, loops={}))
+UNITS += [
+    rv_unit('immediateChangeWith', 'RP___immediateChangeWith__2',
+            dict(requires_target=[fresh('self'), '{fresh:payload}', '(self->_b0._b0._core.logger == (void*)0 || __CPROVER_is_fresh(self->_b0._b0._core.logger, sizeof(*self->_b0._b0._core.logger)))'],
+                 requires=[x.replace('self->_core', 'self->_b0._b0._core') for x in (['g_clock < 800u', 'stateId_ < ' + N, 'g_rounds == 0', '!g_has_surv', 'g_j < sizeof(*payload)'] + INV + zero(LIFE1, (1,)))],
+                 assigns=[x.replace('self->_core', 'self->_b0._b0._core') for x in PR_ASSIGNS + REC_ASSIGNS],
+                 ensures=[(e[0], e[1].replace('self->_core', 'self->_b0._b0._core')) if isinstance(e, tuple) else e.replace('self->_core', 'self->_b0._b0._core') for e in pr_ensures('__CPROVER_old(%s)' % R_ACT)]),
+            {'RP___changeWith__2': RP_CHANGEWITH, 'R___processRequest': R_PR}, ['C02', 'C04', 'C07', 'C11', 'C01', 'C18'], 2, r'^ffsm2::detail::RP_<',
+            calls={'RP___changeWith__2': 'contract', 'R___processRequest': 'contract'}, ghost=GHOST + ['uint8_t g_j;']),
+    # replayEnter (manual activation, replication): enters the given state, runs only enter(), consults no guard
+    rv_unit('replayEnter', 'RV___replayEnter',
+            dict(requires_target=[fresh('self'), '(%s.logger == (void*)0 || __CPROVER_is_fresh(%s.logger, sizeof(*%s.logger)))' % (RVC_, RVC_, RVC_)],
+                 requires=['g_clock < ' + BOUND['R'], 'destination < ' + N, '!g_has_surv', RVC_ + '.registry.active == 255', '!g_root_entered && g_entered == 255'] + zero([K['ENTER']]),
+                 assigns=['__CPROVER_object_whole(self)', 'g_clock', 'g_entered', 'g_root_entered'] + marks([K['ENTER']]),
+                 ensures=[('C11', '%s.registry.active == destination && %s.registry.requested == 255' % (RVC_, RVC_)), ('C01', 'g_root_entered && g_entered == destination'),
+                          ('C11', '%s.previousTransition._b0.destination == destination && %s.previousTransition._b0.origin == 255 && !%s.previousTransition.payloadSet' % (RVC_, RVC_, RVC_)),
+                          ('C01', '__CPROVER_old(g_clock) < %s && %s < %s && g_st[2][0] == 255 && g_st[2][1] == destination' % (tk(2, 0), tk(2, 0), tk(2, 1)))]),
+            {'C___deepEnter': C_ENTER}, ['C11', 'C01', 'C03', 'C18'], 1, r'^ffsm2::detail::RV_<', witness_defines=['W_MANUAL']),
+]
